@@ -427,6 +427,7 @@ class CSBK(BitsInterface, BytesInterface):
             )
         elif csbko == CsbkOpcodes.AlohaPDUsForRandomAccessProtocol:
             return CSBK(
+                last_block=lb,
                 protect_flag=pf,
                 manufacturers_feature_set_id=fid,
                 crc=crc_ccit,
